@@ -170,7 +170,8 @@ func runC12(r *Run) {
 				if !ok || lastField(s2.Addr) != "tsi.RoundLifecycle.CancelTimer" {
 					continue
 				}
-				if s2.Addr.(*ssa.FieldAddr).X != st.Addr.(*ssa.FieldAddr).X {
+				// same lifecycle object (compared as values: the pointer may be re-loaded from a captured variable)
+				if a.sh.Of(s2.Addr.(*ssa.FieldAddr).X).String() != a.sh.Of(st.Addr.(*ssa.FieldAddr).X).String() {
 					continue
 				}
 				v2 := a.sh.Of(s2.Val).String()
